@@ -455,7 +455,10 @@ def run(eng, R):
     src = _txt(f.node)
     # canonical form; the locals are placeholders (`_pos` position map, `_nfix` running count of fixed parameters, `_vals` free start values, `_dyn` 2-row table,
     # `_sel` row selector) - bound jointly, so exchanging two of them between statements is not the same thing
-    PV = "_pv" if src.like("_pv = self.parameter_values") else "self.parameter_values"   # (the current values may be held in a local)
+    # (the current values may be held in a local `_pv`: decided on a copy, so that the probe leaves no binding behind)
+    PV = "_pv" if common.Src(str(src)).all_like("_pv = self.parameter_values", "_pos = np.zeros_like(_pv, dtype=int)") else "self.parameter_values"
+    if PV == "_pv":
+        src.all_like("_pv = self.parameter_values", "_pos = np.zeros_like(_pv, dtype=int)")
     ok = src.like("for _i, _f in enumerate(self._par_fixed): if _f: _pos[_i] = _i _nfix += 1 else: _pos[_i] = _i - _nfix _vals.append(%s[_i])" % PV)
     R.ob("S-scipy", "%s.minimize:index map" % SC, ok, (f.file, f.lineno),
          "the position of a fixed parameter is its own index (row of stored values), the position of a free one is its index minus the number of fixed parameters before it "
